@@ -366,6 +366,10 @@ SkipNow == \E c \in Chan : \/ (SkipHit(sendW[c], rflag') /\ Len(sendW'[c]) < Len
 Next == (Step \/ Switch) /\ focus' = (FocusMode /\ (focus \/ SkipNow))
 
 Spec == Init /\ [][Next]_vars
+\* C08 as a temporal property: under weak fairness of the scheduler's step (the VM's loop always takes the next step it
+\* can) every behaviour reaches an end state - normal end, error, exit, reported deadlock (or one of the as-is panics)
+FairSpec == Spec /\ WF_vars(Next)
+Terminates == <>(end # "run")
 
 -----------------------------------------------------------------------------
 \* What is checked
